@@ -69,6 +69,12 @@ func (p *c12Prop) Gen(r *Rng, i int, tier string) interface{} {
 	for k := 0; k < n; k++ {
 		c.Pkts = append(c.Pkts, r.Intn(4))
 	}
+	if r.Chance(35) {
+		// a broker Maximum Packet Size below the read buffer, and one packet above it somewhere in the sequence:
+		// whatever the segmentation (whole in one read, pipelined behind CONNECT, split) it must be rejected
+		c.Max = 150 + r.Intn(250)
+		c.Pkts[r.Intn(len(c.Pkts))] = 4
+	}
 	switch r.Intn(6) {
 	case 0:
 		c.Chunks = []int{1}
@@ -107,7 +113,7 @@ func (p *c12Prop) Run(ci interface{}) interface{} {
 		ver = mqttp.ProtocolV50
 	}
 	opts := BrokerOpts{}
-	if c.Kind == "oversize" {
+	if c.Kind == "oversize" || (c.Kind == "seg" && c.Max > 0) {
 		opts.MaxPacketSize = uint32(c.Max)
 	}
 	b, err := NewBroker(opts)
@@ -153,6 +159,10 @@ func (p *c12Prop) Run(ci interface{}) interface{} {
 				obs.Expected = append(obs.Expected, [2]int{9, 100 + k})
 			case 2:
 				r, _ = mqttp.Encode(mkPublish(ver, "p/c12", []byte("0123456789012345678901234567890123456789"), 1, false, uint16(200+k)))
+				obs.Expected = append(obs.Expected, [2]int{4, 200 + k})
+			case 4:
+				// larger than the broker's Maximum Packet Size, smaller than its 4096-byte read buffer
+				r, _ = mqttp.Encode(mkPublish(ver, "p/c12", make([]byte, c.Max+1+(k*37)%200), 1, false, uint16(200+k)))
 				obs.Expected = append(obs.Expected, [2]int{4, 200 + k})
 			default:
 				if c.V5 {
@@ -219,6 +229,9 @@ func (p *c12Prop) Run(ci interface{}) interface{} {
 			}
 			if rp.Type() == mqttp.PINGRESP || rp.Type() == mqttp.CONNACK {
 				id = 0
+			}
+			if rp.Type() == mqttp.DISCONNECT {
+				continue // v5: the reason for the close that follows
 			}
 			obs.Observed = append(obs.Observed, [2]int{int(rp.Type()), id})
 		}
@@ -445,7 +458,11 @@ func (p *c12Prop) Coq(ci interface{}, oi interface{}) string {
 		for len(long) < total+5 && len(chunks) > 0 {
 			long = append(long, chunks...)
 		}
-		return fmt.Sprintf("(CSeg %s %s %s %s %s %s)", cList(pk), cNats(long), pairs(o.Expected), pairs(o.Observed), cBool(o.Closed), cBool(o.Err == ""))
+		mx := 4000
+		if c.Max > 0 {
+			mx = c.Max
+		}
+		return fmt.Sprintf("(CSeg %d %s %s %s %s %s %s)", mx, cList(pk), cNats(long), pairs(o.Expected), pairs(o.Observed), cBool(o.Closed), cBool(o.Err == ""))
 	case "hostile":
 		return fmt.Sprintf("(CHostile %s %s)", cBool(o.Bystander), cBool(o.Alive))
 	case "oversize":
